@@ -50,6 +50,7 @@ type hier struct {
 	pi    bool        // direct issuer is a dedicated precertificate signing certificate (CT EKU)
 	piAKI bool        // ... that carries an authority key identifier
 	caEKU bool        // the (ordinary) direct issuer carries an extended key usage extension (serverAuth, clientAuth): not a pre-issuer
+	sameSKI bool      // the final issuer carries a subject key identifier that other CAs (with other keys) carry too
 	piEKU int         // the signing certificate's extended key usages: 0 = {CT}; 1 = {CT, serverAuth}; 2 = {serverAuth, CT}; 3 = {clientAuth, CT, serverAuth}
 	cas   []*pki.Cert // cas[0] = direct issuer ... cas[n] = root
 }
@@ -64,6 +65,9 @@ func (h *hier) label() string {
 			s += fmt.Sprintf(" preissuer-ekus#%d", h.piEKU)
 		}
 	}
+	if h.sameSKI {
+		s += " final-issuer-shares-its-key-id-with-other-CAs"
+	}
 	if h.caEKU {
 		s += " issuer-with-serverAuth-EKU"
 	}
@@ -73,7 +77,9 @@ func (h *hier) label() string {
 func (h *hier) root() *pki.Cert { return h.cas[h.n] }
 
 func buildHier(n, ik int, pi, piAKI, caEKU bool, piEKU int) *hier {
-	h := &hier{n: n, ik: ik, pi: pi, piAKI: piAKI, caEKU: caEKU, piEKU: piEKU, cas: make([]*pki.Cert, n+1)}
+	sameSKI := piEKU >= 100
+	piEKU %= 100
+	h := &hier{n: n, ik: ik, pi: pi, piAKI: piAKI, caEKU: caEKU, piEKU: piEKU, sameSKI: sameSKI, cas: make([]*pki.Cert, n+1)}
 	tag := fmt.Sprintf("n%d-%s", n, kinds[ik])
 	if pi {
 		tag += fmt.Sprintf("-pi%v", piAKI)
@@ -83,6 +89,9 @@ func buildHier(n, ik int, pi, piAKI, caEKU bool, piEKU int) *hier {
 	}
 	if piEKU != 0 {
 		tag += fmt.Sprintf("-piekus%d", piEKU)
+	}
+	if sameSKI {
+		tag += "-sameski"
 	}
 	h.cas[n] = pki.NewRoot("C01 root "+tag, caKey(ik, n+1))
 	for d := n; d >= 1; d-- {
@@ -95,6 +104,9 @@ func buildHier(n, ik int, pi, piAKI, caEKU bool, piEKU int) *hier {
 		}
 		if d == 1 && caEKU {
 			o.EKUs = [][]int{pki.OIDEKUServerAuth, pki.OIDEKUClientAuth}
+		}
+		if h.sameSKI && ((d == 1 && !pi) || (d == 2 && pi)) {
+			o.SKI = []byte("one key id, many CAs")
 		}
 		h.cas[d-1] = pki.NewCA(cn, caKey(ik, d), h.cas[d], o)
 	}
@@ -464,6 +476,17 @@ func newWorld() *world {
 				}
 			}
 		}
+	}
+	// CAs with different keys that carry the same subject key identifier (whoever issues a CA certificate chooses it):
+	// the issuer key hash is the hash of the key
+	for ik := 0; ik < 4; ik++ {
+		for n := 1; n <= 2; n++ {
+			h := w.hierX(n, ik, false, false, false, 100)
+			add(kPreDirect, h, (ik+1)%4, layout{false, 2, 0, 0}, "utc")
+			add(kCert, h, (ik+1)%4, layout{false, 1, 0, -1}, "utc")
+		}
+		hp := w.hierX(2, ik, true, true, false, 100)
+		add(kPrePI, hp, (ik+2)%4, layout{false, 1, 0, 1}, "utc")
 	}
 	// a trusted root submitted on its own: the validated path has length one, the chain part of the extra data is empty
 	for ik := 0; ik < 5; ik++ {
